@@ -200,6 +200,9 @@ func (server *SugarDB) getValues(ctx context.Context, keys []string) map[string]
 	verifhook.AsyncBegin()
 	go func(ctx context.Context, keys []string) {
 		defer verifhook.AsyncEnd()
+		// The cache update may evict keys: like a command, it does not run in the middle of another command.
+		server.commandLock.Lock()
+		defer server.commandLock.Unlock()
 		if _, err := server.updateKeysInCache(ctx, keys); err != nil {
 			log.Printf("getValues error: %+v\n", err)
 		}
@@ -277,6 +280,9 @@ func (server *SugarDB) setValues(ctx context.Context, entries map[string]interfa
 	verifhook.AsyncBegin()
 	go func(ctx context.Context, entries map[string]interface{}) {
 		defer verifhook.AsyncEnd()
+		// The cache update may evict keys: like a command, it does not run in the middle of another command.
+		server.commandLock.Lock()
+		defer server.commandLock.Unlock()
 		for key, _ := range entries {
 			_, err := server.updateKeysInCache(ctx, []string{key})
 			if err != nil {
@@ -336,6 +342,9 @@ func (server *SugarDB) setExpiry(ctx context.Context, key string, expireAt time.
 		verifhook.AsyncBegin()
 		go func(ctx context.Context, key string) {
 			defer verifhook.AsyncEnd()
+			// The cache update may evict keys: like a command, it does not run in the middle of another command.
+			server.commandLock.Lock()
+			defer server.commandLock.Unlock()
 			_, err := server.updateKeysInCache(ctx, []string{key})
 			if err != nil {
 				log.Printf("setExpiry error: %+v\n", err)
